@@ -12,6 +12,7 @@ mod exec7;
 mod exec8;
 mod exec9;
 mod httpd;
+mod tls;
 mod alloc;
 mod sources;
 mod gen;
